@@ -19,7 +19,7 @@ ID = "C06"
 RULE = (
     "case = (text, registry as a table value -> hits per decoder, depth). Exhaustive: text b'aAbB'[:L], every ordered "
     "sequence of up to 3 hits (one decoder each, so every registry order) drawn from all intervals x {plain, case-changed, "
-    "decoding, with supplied children, decoding with supplied children} x 2 types, depth in {1,2}, plus a rule that fires "
+    "decoding, unlabelled same-length decoding, with supplied children, decoding with supplied children} x 2 types, depth in {1,2}, plus a rule that fires "
     "again on decoded values. Sampled: text <= 12 over {a,A,b,B}, <= 8 root hits + hits on decoded values two levels down, "
     "1-4 decoders, re-decodable rules, depth 0-10. Streams: hits recorded (deep-copied at return time) from the shipped "
     "registry on generated documents, replayed through the model. Non-trivial = at least two hits with overlapping "
@@ -32,11 +32,11 @@ ASSUMPTIONS = [
 ]
 EXHAUSTIVE = {"quick": True, "thorough": True}
 EXHAUSTIVE_SCOPE = {
-    "quick": "text length 3 (6 intervals x 5 kinds x 2 types = 60 hit specs), all ordered sequences of 0..3 hits, depth 1 and 2 (unit enum)",
-    "thorough": "text length 4 (100 hit specs) x all ordered sequences of 0..3 hits, and text length 3 x all ordered sequences of 4 hits; depth 1 and 2 (unit enum)",
+    "quick": "text length 3 (6 intervals x 6 kinds x 2 types = 72 hit specs), all ordered sequences of 0..3 hits, depth 1 and 2 (unit enum)",
+    "thorough": "text length 4 (120 hit specs) x all ordered sequences of 0..3 hits, and text length 3 x all ordered sequences of 4 hits over 5 kinds (60 specs); depth 1 and 2 (unit enum)",
 }
 
-ENUM_KINDS = ["plain", "case", "dec", "kids", "deckids"]
+ENUM_KINDS = ["plain", "case", "dec", "swap", "kids", "deckids"]
 ENUM_TYPES = ["", "t1"]
 
 
@@ -80,12 +80,12 @@ def check_table(case) -> Outcome:
     return o
 
 
-def enum_specs(L):
+def enum_specs(L, kinds=None):
     text = b"aAbB"[:L]
     specs = []
     for s in range(L):
         for e in range(s + 1, L + 1):
-            for kind in ENUM_KINDS:
+            for kind in kinds or ENUM_KINDS:
                 for typ in ENUM_TYPES:
                     specs.append(make_hit(text, s, e, kind, typ, 0))
     return text, specs
@@ -97,7 +97,8 @@ def run_enum(ctx, shard, nshards, seed, budget):
     plans = [(3, 3)] if budget == 0 else [(4, 3), (3, 4)]
     evals = nt = 0
     for L, maxhits in plans:
-        text, specs = enum_specs(L)
+        # the 4-hit layer keeps the five original kinds (26 M configurations with six would double the thorough run)
+        text, specs = enum_specs(L, ENUM_KINDS if maxhits == 3 else [k for k in ENUM_KINDS if k != "swap"])
         inner = ("inner",)
         idx = 0
         for n in range(0, maxhits + 1):
